@@ -517,7 +517,7 @@ def lib_call(ev, full, args, kw, node, want):
         A.add("np.average/np.mean(L) == lsum(L)/len(L), len(L) > 0")
         n = ev.llen(L)
         ev.need(n > 0, "mean-of-empty", node)
-        return Val(lsum(ev.lelts(L), n) / z3.ToReal(n), REAL)
+        return ev.binop(ast.Div(), Val(lsum(ev.lelts(L), n), REAL), Val(n, INT), node)
     if full == "np.var":
         L = args[0]
         if "lvar" not in u.used:
@@ -530,10 +530,10 @@ def lib_call(ev, full, args, kw, node, want):
         return minmax(ev, "max" if full.endswith("maximum") else "min", args[0], args[1], node)
     if full in ("np.ceil", "math.ceil"):
         t = ceil_int(real(0))
-        return Val(z3.ToReal(t), REAL) if full.startswith("np") else Val(t, INT)
+        return _real(ev, Val(t, INT), node) if full.startswith("np") else Val(t, INT)
     if full in ("np.floor", "math.floor"):
         t = z3.ToInt(real(0))
-        return Val(z3.ToReal(t), REAL) if full.startswith("np") else Val(t, INT)
+        return _real(ev, Val(t, INT), node) if full.startswith("np") else Val(t, INT)
     if full in ("np.log", "math.log", "np.log2"):
         x = real(0)
         u.used.add("ln")
